@@ -535,9 +535,9 @@ def compare_run(case, run, log, max_differences=4):
         # the row calls changes everything after it, and whatever a second close() adds is one finding
         if after_second_close or name not in _SPECIAL:
             break
+        if name == "reset" and stateful:
+            break  # a built-in check kept or lost its state: what follows is a consequence, not a new finding
         if direction == "missing":
-            if name == "reset" and stateful:
-                break  # a built-in check kept its state: everything after it is a consequence, not a new finding
             observed = observed[:index] + [e] + observed[index:]
         elif direction == "extra":
             observed = observed[:index] + observed[index + 1:]
